@@ -15,5 +15,6 @@ func rulesC08(c *Ctx, r *Report) {
 	rulesStepsReversed(c, r)
 	rulesTracePanics(c, r)
 	rulesFillAllCells(c, r)
+	rulesTraceStart(c, r)
 	rulesPureAlign(c, r)
 }
